@@ -204,6 +204,9 @@ fn run_dna_simd(case: &Case, cx: &Cx, info: &mut CaseInfo) -> (Option<Failure>, 
     let symbols = syms::<Dna>(&idx);
     let mut striped: StripedSequence<Dna, U32> = Pipeline::<Dna, _>::generic().stripe(&symbols);
     striped.configure_wrap(m - 1 + case.extra_wrap);
+    // a clone's buffer ends right after its last row (no spare capacity): what the
+    // sanitizer runs of C06 need to see an over-read of the SIMD kernels
+    let striped = striped.clone();
     let r32 = ref_scores_f32(&cells, &idx);
     let n = r32.len();
     if n == 0 {
